@@ -374,6 +374,10 @@ def run_c02(tier):
     lf = labelflow_family()
     for c in chunks(lf, 300):
         tasks.append(('labelflow', c, ['ab\nc'], 400))
+    from . import scale
+    sp = scale.scale_programs(tier)
+    for c in chunks(sp, 3):
+        tasks.append(('scale', c, ['ab\nc']))
     cur = eng_exec.curated_programs()
     cin = eng_exec.curated_inputs(2 if tier == 'quick' else 3)
     for name, text in cur:
@@ -395,7 +399,7 @@ def run_c02(tier):
                   'renumbering': {'alphabets': [S24, F12], 'programs': len(ren)},
                   'renumbering_3_high_stacks': {'alphabet': S3, 'programs': len(ren3)},
                   'bailout_programs': len(bailout_family()), 'budget_programs': len(budget_family(tier)),
-                  'mixed_programs': len(mixed_family()), 'labelflow_programs': len(lf), 'curated_programs': len(cur), 'curated_inputs': len(cin),
+                  'mixed_programs': len(mixed_family()), 'labelflow_programs': len(lf), 'size_ladder_programs': len(sp), 'curated_programs': len(cur), 'curated_inputs': len(cin),
                   'step_budget': {'budget/mixed/curated families': B, 'other families': 400}, 'inconclusive_after_8x_budget': st.n.get('inconclusive', 0)},
         'distinct_outcomes': {'level0_endings': sorted(st.sets.get('kinds', ())),
                               'distinct_level0_outputs': len(st.sets.get('outputs', ()))},
